@@ -468,6 +468,29 @@ func init() {
 			add("unregistered callback", []byte(p+"nosuchcallback(jso.a)\n"), true)
 			add("unregistered getter", []byte("obj.Id = nosuchgetter(jso.a)\n"+p), true)
 		}
+		// a rejected text stays rejected whatever happened before: the tree that came
+		// with the error is registered (callers that ignore the error do that) and
+		// the same bytes are parsed again
+		decoder.VerifResetRegistry()
+		for k, bad := range []string{"if jso.a == 1 {\nprobe(1)\n", "probe(1)\n}\n", "probe(1)\n} else {\n}\n", "nosuchcallback(jso.a)\n", "obj.Id = nosuchgetter(jso.a)\n",
+			"for i := 0; i < 3; i++ {\n", "switch jso.s {\ncase 1:\nprobe(1)\n"} {
+			t1, e1 := decoder.Parse([]byte(bad))
+			if e1 == nil {
+				continue
+			}
+			if t1 != nil {
+				decoder.RegisterDecoderKey(fmt.Sprintf("bad%d", k), t1)
+				decoder.RegisterDecoder(100+k, fmt.Sprintf("badpair%d", k), t1)
+			}
+			_, e2 := decoder.Parse([]byte(bad))
+			sum.Evaluations++
+			sum.Distribution["parse / register / parse histories of rejected texts"]++
+			if e2 == nil && len(sum.OracleFails) < 5 {
+				sum.OracleFails = append(sum.OracleFails, OracleFail{What: "a text that Parse rejected is accepted when parsed again after the tree returned with the error was registered", Input: map[string]any{"text": bad, "history": "Parse(text) -> error; Register(tree); Parse(text)"}, Expect: "non-nil error", Got: "nil error"})
+			}
+		}
+		decoder.VerifResetRegistry()
+		registerUserFuncs()
 		// Coq evaluates a sample (all corpus + brace edits sample + mutations sample)
 		var coq []*parseCase
 		budget := 350
